@@ -363,6 +363,7 @@ func genC14(ctx *Ctx) {
 	}
 	c14Concurrent(ctx, be, env, evs, &nextID)
 	c14Backlogged(ctx, be, env, evs, &nextID)
+	c14Burst(ctx, be, env, evs, &nextID)
 	c14RefreshBurst(ctx, evs, &nextID)
 	_ = proxy.Config{}
 	_ = bytes.MinRead
@@ -523,6 +524,66 @@ func c14Backlogged(ctx *Ctx, be *fb.Backend, env *px.Env, evs *c14Events, nextID
 		}
 		ctx.Emit(hv.L(hv.I(2), hv.L(ops...)), hv.L(hv.L(a...), hv.L(b...)), fmt.Sprintf("backlogged client: %d answers read after the events", answers))
 		ctx.Count("backlogged-client")
+	}
+}
+
+// c14Burst: many registered clients and events that arrive faster than they are fanned out, so that the queue between
+// the control connection's reader and the event loop is appended to while a batch taken from it is still being
+// delivered.  Every client must get every event once, in the order the backend announced them.
+func c14Burst(ctx *Ctx, be *fb.Backend, env *px.Env, evs *c14Events, nextID *int) {
+	const n = 12
+	for round := 0; round < ctx.Scale(2, 8); round++ {
+		var cs []*c14Client
+		var ops []hv.V
+		for i := 0; i < n; i++ {
+			c := c14Dial(env, ctx.Rng)
+			_ = c.cl.Send(c.ver, 1, &message.Register{EventTypes: []primitive.EventType{primitive.EventTypeSchemaChange}})
+			if f, _ := c.cl.Next(5 * time.Second); f == nil {
+				panic("c14: register in the burst family")
+			}
+			cs = append(cs, c)
+			ops = append(ops, hv.L(hv.I(0), hv.I(int64(i))), hv.L(hv.I(1), hv.I(int64(i)), hv.Bool(true)))
+		}
+		er := hv.NewRng(ctx.Rng.Next())
+		last := -1
+		for burst := 0; burst < 3; burst++ {
+			for k := 0; k < ctx.Scale(150, 400); k++ {
+				id := *nextID
+				*nextID++
+				be.Event(evs.schema(id, er))
+				ops = append(ops, hv.L(hv.I(3), hv.I(0), hv.I(int64(id))))
+				last = id
+			}
+			time.Sleep(40 * time.Millisecond)
+		}
+		var out []hv.V
+		for _, c := range cs {
+			// until the last event announced has arrived (or, when events were lost, for five seconds)
+			deadline := time.Now().Add(5 * time.Second)
+			for {
+				c.drain(evs)
+				seen := false
+				for _, g := range c.got {
+					if g%100000 == last {
+						seen = true
+					}
+				}
+				if seen || time.Now().After(deadline) {
+					break
+				}
+				time.Sleep(30 * time.Millisecond)
+			}
+			time.Sleep(20 * time.Millisecond)
+			c.drain(evs)
+			var l []hv.V
+			for _, g := range c.got {
+				l = append(l, hv.I(int64(g)))
+			}
+			out = append(out, hv.L(l...))
+			c.cl.Close()
+		}
+		ctx.Emit(hv.L(hv.I(n), hv.L(ops...)), hv.L(out...), fmt.Sprintf("burst: %d events to %d registered clients", len(ops)-2*n, n))
+		ctx.Count("event-burst")
 	}
 }
 
